@@ -1,0 +1,182 @@
+//go:build verif
+
+package serverinterceptors
+
+import (
+	"context"
+	"encoding/json"
+	"sync"
+	"testing"
+	"time"
+
+	"github.com/gotid/god/internal/verifdrv"
+	"github.com/gotid/god/lib/logx"
+	"google.golang.org/grpc"
+	"google.golang.org/grpc/codes"
+	"google.golang.org/grpc/status"
+)
+
+type verifHandlerSpec struct {
+	T    string `json:"t"`    // ret | panic
+	Resp *int   `json:"resp"` // nil response when absent
+	Code int    `json:"code"` // 0: nil error, else status.Error(code, ...)
+}
+
+type verifFire struct {
+	Mode  string `json:"mode"`  // none | before | both
+	Cause string `json:"cause"` // cancel | deadline | real
+}
+
+type verifCase struct {
+	Crash   bool             `json:"crash"`   // UnaryCrashInterceptor outside
+	Timeout bool             `json:"timeout"` // UnaryTimeoutInterceptor installed
+	H       verifHandlerSpec `json:"h"`
+	Fire    verifFire        `json:"fire"`
+}
+
+// verifDeadlineCtx: a parent context whose deadline "expires" when the driver says so.
+type verifDeadlineCtx struct {
+	context.Context
+	done chan struct{}
+	mu   sync.Mutex
+	err  error
+}
+
+func (c *verifDeadlineCtx) Done() <-chan struct{} { return c.done }
+
+func (c *verifDeadlineCtx) Err() error {
+	c.mu.Lock()
+	defer c.mu.Unlock()
+	return c.err
+}
+
+func (c *verifDeadlineCtx) expire() {
+	c.mu.Lock()
+	c.err = context.DeadlineExceeded
+	c.mu.Unlock()
+	close(c.done)
+}
+
+const (
+	verifRealTimeout = 40 * time.Millisecond
+	verifHangLimit   = 2 * time.Second
+)
+
+func verifRun(c *verifCase) map[string]any {
+	entered := make(chan struct{})
+	release := make(chan struct{})
+	hexit := make(chan struct{})
+	handler := func(ctx context.Context, req interface{}) (interface{}, error) {
+		defer close(hexit)
+		close(entered)
+		<-release
+		if c.H.T == "panic" {
+			panic("verif: scripted panic")
+		}
+		var resp interface{}
+		if c.H.Resp != nil {
+			resp = *c.H.Resp
+		}
+		if c.H.Code != 0 {
+			return resp, status.Error(codes.Code(c.H.Code), "verif: scripted error")
+		}
+		return resp, nil
+	}
+	info := &grpc.UnaryServerInfo{FullMethod: "/verif/Method"}
+
+	dt := time.Hour
+	if c.Fire.Cause == "real" {
+		dt = verifRealTimeout
+	}
+	// composed exactly as grpc.ChainUnaryInterceptor does: the first interceptor is the outermost
+	call := handler
+	if c.Timeout {
+		ti := UnaryTimeoutInterceptor(dt)
+		inner := call
+		call = func(ctx context.Context, req interface{}) (interface{}, error) { return ti(ctx, req, info, inner) }
+	}
+	if c.Crash {
+		inner := call
+		call = func(ctx context.Context, req interface{}) (interface{}, error) {
+			return UnaryCrashInterceptor(ctx, req, info, inner)
+		}
+	}
+
+	var fire func()
+	var parent context.Context = context.Background()
+	switch c.Fire.Cause {
+	case "cancel":
+		ctx, cancel := context.WithCancel(context.Background())
+		parent, fire = ctx, cancel
+	case "deadline":
+		dc := &verifDeadlineCtx{Context: context.Background(), done: make(chan struct{})}
+		parent, fire = dc, dc.expire
+	default:
+		fire = func() {}
+	}
+	var once sync.Once
+	rawFire := fire
+	fire = func() { once.Do(rawFire) }
+
+	gdone := make(chan struct{})
+	var resp interface{}
+	var err error
+	var panicked bool
+	go func() {
+		defer close(gdone)
+		panicked, _ = verifdrv.Catch(func() { resp, err = call(parent, "req") })
+	}()
+
+	// wait bounds the time the chain may take once nothing it waits for is outstanding any more
+	wait := func(ch chan struct{}) bool {
+		select {
+		case <-ch:
+			return true
+		case <-time.After(verifHangLimit):
+			return false
+		}
+	}
+	hung := false
+	if !wait(entered) {
+		return map[string]any{"hung": true, "panicked": false, "code": -1}
+	}
+	switch c.Fire.Mode {
+	case "before":
+		fire()
+		if !wait(gdone) {
+			hung = true // the chain is still waiting for the handler although the deadline has passed
+		}
+		close(release)
+	case "both":
+		go fire()
+		close(release)
+	default:
+		close(release)
+	}
+	if !wait(gdone) || !wait(hexit) {
+		fire()
+		return map[string]any{"hung": true, "panicked": false, "code": -1}
+	}
+	fire()
+
+	out := map[string]any{"panicked": panicked, "hung": hung, "code": int(status.Code(err))}
+	if v, ok := resp.(int); ok {
+		out["resp"] = v
+	} else if resp != nil {
+		out["resp"] = -1
+	}
+	return out
+}
+
+// TestVerifDriver drives the composed unary crash/timeout interceptors with a scripted grpc.UnaryHandler
+// that is parked by the driver, so that the deadline is forced before / together with the handler's return.
+func TestVerifDriver(t *testing.T) {
+	logx.Disable()
+	verifdrv.Run(t, func(raw json.RawMessage) any {
+		var c verifCase
+		if err := json.Unmarshal(raw, &c); err != nil {
+			return map[string]any{"error": err.Error()}
+		}
+		return verifRun(&c)
+	})
+}
